@@ -206,16 +206,51 @@ def run(ctx) -> None:
         fq = f"{eng}.incr"
         fn = prog.function(fq)
         ctx.visit(fq)
-        d = shapes.single_def(fn, "date")
-        ok = isinstance(d, ast.IfExp) and unparse(d.test) in ("maybe_date is None",) and unparse(d.body) == "version.TODAY" and unparse(d.orelse) == "maybe_date"
-        ok = ok or (isinstance(d, ast.IfExp) and unparse(d.test) == "maybe_date is not None" and unparse(d.orelse) == "version.TODAY" and unparse(d.body) == "maybe_date")
-        ok = ok or (isinstance(d, ast.BoolOp) and isinstance(d.op, ast.Or) and [unparse(v) for v in d.values] == ["maybe_date", "version.TODAY"])
-        ctx.check("R4", ok, f"{fq}: date = maybe_date, else version.TODAY", f"{fq}: the bump date is not the given --date (else today)", unparse(d) if d is not None else "", loc=fn.loc())
-        c = shapes.single_def(fn, "cur_cinfo")
-        ok = isinstance(c, ast.IfExp) and unparse(c.test) == "pin_date" and unparse(c.body) == "_ver_to_cal_info(old_vinfo)" and unparse(c.orelse) == "cal_info(date)"
-        ok = ok or (isinstance(c, ast.IfExp) and unparse(c.test) == "not pin_date" and unparse(c.orelse) == "_ver_to_cal_info(old_vinfo)" and unparse(c.body) == "cal_info(date)")
+        from sa.pathcond import assign_facts, ifexp_atoms
+        cfg = cfgs.get(fq)
+        pc0 = PathCond(cfg, extra_atoms=[a_ for a_ in ifexp_atoms(fn.node)])
+        facts = assign_facts(cfg, pc0, ("date", "cur_cinfo"))
+        none_atom = "maybe_date is None" if "maybe_date is None" in pc0.atoms else None
+        by = {}
+        for name, val, cond, _st in facts:
+            by.setdefault(name, []).append((unparse(val), val, cond))
+        # date
+        ok = False
+        if "date" in by and none_atom:
+            today = BF.false()
+            given = BF.false()
+            other = False
+            for txt, _v, cond in by["date"]:
+                if txt == "version.TODAY":
+                    today = today | cond
+                elif txt == "maybe_date":
+                    given = given | cond
+                else:
+                    other = True
+            N = BF.var(none_atom)
+            ok = not other and today.project([none_atom]).equiv(N) and given.project([none_atom]).equiv(~N)
+        elif "date" in by and len(by["date"]) == 1 and by["date"][0][0] == "maybe_date or version.TODAY":
+            ok = True
+        ctx.check("R4", ok, f"{fq}: date = maybe_date, else version.TODAY", f"{fq}: the bump date is not the given --date (else today)",
+                  f"{[(t, c.to_dnf(3)) for t, _v, c in by.get('date', [])]}", loc=fn.loc())
+        # calendar source
+        ok = False
+        if "cur_cinfo" in by and "pin_date" in pc0.atoms:
+            pinned = BF.false()
+            fresh = BF.false()
+            other = False
+            for txt, v, cond in by["cur_cinfo"]:
+                if txt == "cal_info(date)":
+                    fresh = fresh | cond
+                elif isinstance(v, ast.Call) and [unparse(x) for x in v.args] == ["old_vinfo"] and prog.resolve_call(fn, v, count=False).kind == "func":
+                    pinned = pinned | cond
+                    ctx.notes[f"{eng}_pin_fn"] = prog.resolve_call(fn, v, count=False).name
+                else:
+                    other = True
+            P = BF.var("pin_date")
+            ok = not other and pinned.project(["pin_date"]).equiv(P) and fresh.project(["pin_date"]).equiv(~P)
         ctx.check("R4", ok, f"{fq}: calendar = parsed calendar when pinned, else cal_info(date)", f"{fq}: calendar source does not follow --pin-date / --date",
-                  unparse(c) if c is not None else "", loc=fn.loc())
+                  f"{[(t, c.to_dnf(3)) for t, _v, c in by.get('cur_cinfo', [])]}", loc=fn.loc())
         cfg = cfgs.get(fq)
         pc = PathCond(cfg)
         fut = [a for a in pc.atoms if a.startswith("_is_cal_gt(")]
